@@ -10,8 +10,8 @@ import gen
 
 RULE = ("generated trees inside a repository directory (whose name may contain regex metacharacters) with ignore files "
         "built from the entries' own names: literal names, `*.ext`, `dir/`, `dir/*.ext`, `**/name`, `?` patterns, "
-        "comments, blank lines, `!exceptions` (git, docker), `syntax: glob|regexp` sections with `\\.ext$`, `^dir/`, plain "
-        "words (hg); root = the repository or a sub-directory of it, spelled `.`, relative or absolute; rules enabled "
+        "symbolic links (name matching while the target does not and vice versa, dangling, loops), comments, blank lines, `!exceptions` (git, docker), `syntax: glob|regexp` sections with `\\.ext$`, `^dir/`, plain "
+        "words (hg); root = the repository or a sub-directory of it, spelled `.`, relative, absolute, through `..` or through a symbolic link outside the repository; rules enabled "
         "by option, by the configuration default, and switched off by `no…` against a default; bfs/dfs; two roots in one query, each a repository with its own hg/docker ignore file, in either order. (a) CLI "
         "correspondence with the Lean model (git's verdict per entry is snapshot input taken from `git check-ignore`); "
         "(b) oracle: rows with the rules = rows without them minus the entries the tool ignores — `git check-ignore` "
@@ -34,6 +34,20 @@ def tree(r):
             ents.append({"path": p + "/out.bin", "kind": "f", "size": 3, "mode": 0o644, "mtime": 1700000001})
         else:
             ents.append({"path": p, "kind": "f", "size": 2, "mode": 0o644, "mtime": 1700000002})
+    # symbolic links: an entry is judged by its own name and place, whatever it points to — links whose name matches
+    # a pattern while the target's does not (and the other way round), a dangling link, a link loop
+    if r.chance(2, 3):
+        files = [e["path"] for e in ents if e["kind"] == "f"]
+        have = {e["path"] for e in ents}
+        for nm, tgt in [("lnk.o", r.choice(files) if files else "nowhere"), ("plainlink", "a.o"), ("dangling.tmp", "no-such-target"), ("loop", "loop"),
+                        ("keep.bak", "z.txt")]:
+            if r.chance(1, 2):
+                d = r.choice(dirs)
+                p = (d + "/" if d else "") + nm
+                if p not in have:
+                    have.add(p)
+                    # (relative targets are resolved from the link's directory; most of these dangle, which is the point)
+                    ents.append({"path": p, "kind": "l", "target": tgt if nm != "lnk.o" else os.path.relpath(tgt, d or "."), "mtime": 1700000003})
     return ents
 
 
@@ -297,13 +311,28 @@ def run(ctx):
                 open(os.path.join(repo, ".hgignore"), "w").write(text)
             else:
                 open(os.path.join(repo, ".dockerignore"), "w").write(text)
-            snap = corr.Snap(scratch, None, root=top)
             # sub-directory roots, also inside an ignored directory (everything below is then ignored)
             sub = [e["path"] for e in ents if e["kind"] == "d" and e["path"].count("/") <= 1]
+            # (for the root spellings that are not canonical: a directory next to the repository, links to it and into it)
+            os.makedirs(os.path.join(top, "elsewhere"), exist_ok=True)
+            os.symlink(repo_name, os.path.join(top, "lnk-repo"))
+            plain_sub = [x for x in sub if "/" not in x and all(ch.isalnum() or ch in "._" for ch in x)]
+            if plain_sub:
+                os.symlink(os.path.join(repo_name, plain_sub[0]), os.path.join(top, "lnk-sub"))
+            snap = corr.Snap(scratch, None, root=top)
             roots = [(".", repo, ""), (gen.quote_path(repo), top, ""), (gen.quote_path(repo_name), top, "")]
+            # spellings that are not canonical: through `..`, and through a symbolic link that lives outside the repository
+            roots.append((gen.quote_path("../" + repo_name), os.path.join(top, "elsewhere"), ""))
+            roots.append(("lnk-repo", top, ""))
             if sub:
                 sd = r.choice(sub)
+                if plain_sub and r.chance(1, 2):
+                    sd = plain_sub[0]
                 roots.append((".", os.path.join(repo, sd), sd))
+                if "/" not in sd and all(ch.isalnum() or ch in "._" for ch in sd):
+                    roots.append(("%s/../%s" % (sd, sd), repo, sd))
+                    if os.path.realpath(os.path.join(top, "lnk-sub")) == os.path.realpath(os.path.join(repo, sd)):
+                        roots.append(("lnk-sub", top, sd))
                 if any(e["path"] == "build" for e in ents) and r.chance(1, 2):
                     roots.append((r.choice([".", gen.quote_path(os.path.join(repo, "build"))]), os.path.join(repo, "build"), "build"))
             opt = {"git": ["gitignore", "git"], "hg": ["hgignore", "hg"], "docker": ["dockerignore", "dock"]}[tool]
@@ -358,8 +387,10 @@ def run(ctx):
                 rows = [x.decode("utf-8", "surrogateescape") for x in impl["out"].split(b"\0")[:-1]]
 
                 def rel_of(p):
-                    full = os.path.normpath(p if os.path.isabs(p) else os.path.join(cwd, p))
-                    return os.path.relpath(full, repo)
+                    # the entry's own location: the real directory it sits in, plus its name
+                    full = p if os.path.isabs(p) else os.path.join(cwd, p)
+                    full = os.path.join(os.path.realpath(os.path.dirname(full)), os.path.basename(full))
+                    return os.path.relpath(full, os.path.realpath(repo))
                 if active:
                     want = [p for p in prow if not with_ancestors(ref, rel_of(p))]
                     # libgit2 treats the repository's own .git directory as ignored
